@@ -18,9 +18,13 @@ static int spec_entry_exact(unsigned char c, unsigned n, const char *s)
     if (c == '"') return n == 6 && s[0] == '&' && s[1] == 'q' && s[2] == 'u' && s[3] == 'o' && s[4] == 't' && s[5] == ';';
     if (c == '\'') return n == 6 && s[0] == '&' && s[1] == 'a' && s[2] == 'p' && s[3] == 'o' && s[4] == 's' && s[5] == ';';
     if (spec_is_ctl8(c)) {
+        /* canonical decimal &#d; &#dd; &#ddd; (no leading zero), stated with multiplications only (no division circuits) */
         if (c < 10) return n == 4 && s[0] == '&' && s[1] == '#' && s[2] == '0' + c && s[3] == ';';
-        if (c < 100) return n == 5 && s[0] == '&' && s[1] == '#' && s[2] == '0' + c / 10 && s[3] == '0' + c % 10 && s[4] == ';';
-        return n == 6 && s[0] == '&' && s[1] == '#' && s[2] == '0' + c / 100 && s[3] == '0' + (c / 10) % 10 && s[4] == '0' + c % 10 && s[5] == ';';
+        if (c < 100)
+            return n == 5 && s[0] == '&' && s[1] == '#' && s[2] >= '1' && s[2] <= '9' && s[3] >= '0' && s[3] <= '9' &&
+                   10 * (s[2] - '0') + (s[3] - '0') == c && s[4] == ';';
+        return n == 6 && s[0] == '&' && s[1] == '#' && s[2] >= '1' && s[2] <= '9' && s[3] >= '0' && s[3] <= '9' &&
+               s[4] >= '0' && s[4] <= '9' && 100 * (s[2] - '0') + 10 * (s[3] - '0') + (s[4] - '0') == c && s[5] == ';';
     }
     return n == 0;
 }
